@@ -99,7 +99,9 @@ mod verif {
         let other = any_rec();
         let before_r = spec(&m, &r);
         let before_o = spec(&m, &other);
-        kani::cover!(matches!(before_r, Some(Some(_))) && matches!(before_o, Some(Some(_))) && !same_key(&m, &r, &other), "reachable: two matching records of different keys, both with a floor");
+        // a single-key subscription (Partition / Stream) cannot match two different keys: there the reachability probe is one matching record
+        let single_key = matches!(m, SubscriptionMatcher::Partition { .. } | SubscriptionMatcher::Stream { .. });
+        kani::cover!(matches!(before_r, Some(Some(_))) && (single_key || (matches!(before_o, Some(Some(_))) && !same_key(&m, &r, &other))), "reachable: a matching record with a floor (multi-key subscriptions: two matching records of different keys, both with a floor)");
         // has_seen
         let expect_seen = match before_r { None => true, Some(None) => false, Some(Some(f)) => pos(&m, &r) < f };
         assert!(m.has_seen(&r) == expect_seen, "has_seen(r) <=> r does not match or lies below the floor of its key");
